@@ -1333,6 +1333,27 @@ def __is_name_mangled(name: str) -> bool:
     return bool(__NAME_MANGLED_PATTERN.fullmatch(name)) and not name.endswith("__")
 
 
+def __unmangle(class_name: str, name: str) -> str:
+    """Reverts Python's name mangling of a private name defined in the given class.
+
+    Inside the body of class ``Foo`` (or ``_Foo``) the name ``__attr`` is stored as
+    ``_Foo__attr``.  Knowing the defining class, this is decided exactly instead of
+    guessing from the shape of the name, which fails for class names containing an
+    underscore and for protected names that merely contain a double underscore.
+
+    Args:
+        class_name: The name of the class that defines the attribute.
+        name: The attribute name as found on the class.
+
+    Returns:
+        The name as written in the class body.
+    """
+    prefix = f"_{class_name.lstrip('_')}__"
+    if class_name.strip("_") and name.startswith(prefix) and not name.endswith("__"):
+        return name[len(prefix) - 2 :]
+    return name
+
+
 def __should_skip_by_visibility(name: str, *, add_to_test: bool) -> bool:
     """Determines whether an element should be skipped based on its visibility.
 
@@ -1355,6 +1376,28 @@ def __should_skip_by_visibility(name: str, *, add_to_test: bool) -> bool:
             return __is_private(name) or __is_name_mangled(name)
         case _:
             return __is_private(name) or __is_protected(name)
+
+
+def __should_skip_method_by_visibility(
+    type_info: TypeInfo, method_name: str, *, add_to_test: bool
+) -> bool:
+    """Determines whether a method should be skipped based on its visibility.
+
+    In contrast to module-level names, the defining class of a method is known, so
+    name mangling is reverted exactly before the naming convention is applied.
+
+    Args:
+        type_info: The class that defines the method.
+        method_name: The name of the method as found on the class.
+        add_to_test: Whether the method belongs to the module under test.
+
+    Returns:
+        True, if the method should be skipped from analysis.
+    """
+    name = __unmangle(type_info.name, method_name)
+    if add_to_test and config.configuration.element_visibility == ElementVisibility.PROTECTED:
+        return __is_private(name)
+    return __should_skip_by_visibility(name, add_to_test=add_to_test)
 
 
 def __is_method_defined_in_class(class_: type | types.UnionType, method: object) -> bool:
@@ -1699,7 +1742,7 @@ def __analyse_method(
 ) -> None:
     if (
         __is_annotate(method_name)
-        or __should_skip_by_visibility(method_name.rpartition(".")[2], add_to_test=add_to_test)
+        or __should_skip_method_by_visibility(type_info, method_name, add_to_test=add_to_test)
         or __is_constructor(method_name)
         or not __is_method_defined_in_class(type_info.raw_type, method)
         or __is_ignored_method(type_info, method_name)
